@@ -21,13 +21,13 @@ type expr struct {
 }
 
 var binPrec = map[string]int{
-	"*": 5, "/": 5, "%": 5, "<<": 5, ">>": 5, "&": 5,
+	"*": 5, "/": 5, "%": 5, "<<": 5, ">>": 5, "&": 5, "&^": 5,
 	"+": 4, "-": 4, "|": 4, "^": 4,
 	"==": 3, "!=": 3, "<": 3, "<=": 3, ">": 3, ">=": 3,
 	"&&": 2, "||": 1,
 }
 
-var arithOps = []string{"*", "/", "%", "<<", ">>", "&", "+", "-", "|", "^"}
+var arithOps = []string{"*", "/", "%", "<<", ">>", "&", "&^", "+", "-", "|", "^"}
 var cmpOps = []string{"==", "!=", "<", "<=", ">", ">="}
 var logicOps = []string{"&&", "||"}
 
